@@ -363,6 +363,65 @@ def c02(ctx):
                b.loc(t["line"]), how="caller matches `at` or calls %s" % sorted(x.rsplit("::", 1)[-1] for x in at_handlers))
     rep.ob("C02.R4", "subscripts-follow-primary::sites", n_nsp >= 2 and bool(at_handlers), "" if n_nsp >= 2 and at_handlers else "only %d call sites of parse_non_subscript_primary_expression / no function matching `at` found" % n_nsp, None,
            how="%d call sites, `at` matched in %s" % (n_nsp, sorted(x.rsplit("::", 1)[-1] for x in at_handlers)))
+    # contractions after every kind of token that can carry one
+    rep.rule("C02.R11", "a contraction (`'s`, `'re`) is recognised after every token that can carry one: the scanners for numbers, string literals "
+             "and comments each reach Lexer::maybe_followed_by_apostrophe_suffix (call graph inside lexer.rs), and words strip their own "
+             "suffix in tokenize_word -- `X(remark)'s 5` means the same as `X's 5`, since a comment is noise")
+    MF = "frontend::lexer::Lexer::<'a>::maybe_followed_by_apostrophe_suffix"
+    lex_fns = {fn.path: fn for fn in F.all_fns(tests=False) if fn.file.endswith("frontend/lexer.rs") and fn.kind != "closure"}
+    calls_of = {}
+    for path, fn in lex_fns.items():
+        cs = set()
+        for b in F.with_closures(fn):
+            for bi, t in b.calls():
+                d = t["callee"].get("resolved") or callee_def(t)
+                if d in lex_fns:
+                    cs.add(d)
+        calls_of[path] = cs
+
+    def reaches(a, seen=None):
+        seen = seen if seen is not None else set()
+        if a in seen:
+            return False
+        seen.add(a)
+        return MF in calls_of.get(a, ()) or any(reaches(x, seen) for x in calls_of.get(a, ()))
+    for nm in ("scan_number", "scan_string_literal", "scan_comment"):
+        path = "frontend::lexer::Lexer::<'a>::" + nm
+        if path not in lex_fns:
+            rep.fail("C02.R11", "anchor::" + nm, "Lexer::%s not found" % nm)
+            continue
+        ok = reaches(path)
+        rep.ob("C02.R11", "suffix-after::" + nm, ok, "" if ok else "Lexer::%s no longer reaches maybe_followed_by_apostrophe_suffix: a `'s` / `'re` glued to such a token is not recognised as a contraction (the apostrophe is dropped as noise and the letters become a word)" % nm,
+               lex_fns[path].loc(), how="reaches maybe_followed_by_apostrophe_suffix")
+    # list operands: the "inside a list" flag
+    rep.rule("C02.R10", "list operands group the same way wherever they stand: Parser.parsing_list is written only by the list parser, and every "
+             "non-error return of the list parser leaves it false (a write of `false` lies on every path from each write of `true`, and from "
+             "the entry, to the return) -- after any operand, nested or not, the next operator on the same level may start a list of its own")
+    PARSER_ADT = "frontend::parser::Parser"
+    ws = [(fn, bi, st) for fn, bi, kind, st in common.field_accesses(F, PARSER_ADT, "parsing_list") if kind in ("write", "mutref")]
+    tops = {common.top_fn(F, fn).path for fn, bi, st in ws if common.top_fn(F, fn).name != "new"}
+    okw = len(tops) == 1
+    rep.ob("C02.R10", "list-flag::one-writer", okw, "" if okw else "Parser.parsing_list is written by %s" % sorted(tops), None, how=str(sorted(x.rsplit("::", 1)[-1] for x in tops)))
+    for path in sorted(tops):
+        lf = F.fn(path)
+        if lf is None:
+            continue
+        rep.analysed(lf)
+        falses = [bi for fn, bi, st in ws if fn is lf and (st.get("rv", {}).get("use", {}).get("const") or {}).get("int") in ("0", 0, "false")]
+        others = [bi for fn, bi, st in ws if fn is lf and bi not in falses]
+        in_closure = [fn.path for fn, bi, st in ws if fn is not lf and common.top_fn(F, fn).path == path]
+        ok, why = True, ""
+        if not falses:
+            ok, why = False, "%s never resets Parser.parsing_list" % lf.name
+        elif in_closure:
+            ok, why = False, "Parser.parsing_list is written inside a closure (%s): the reset cannot be placed on the paths of %s" % (in_closure[0], lf.name)
+        elif common.path_to_return_avoiding(lf, falses):
+            ok, why = False, "%s can return normally without resetting Parser.parsing_list: after a nested operand the flag stays set, so the next operator of the same list no longer takes a list of its own (the same words group differently depending on what came before)" % lf.name
+        else:
+            for ob in others:
+                if common.path_to_return_avoiding(lf, falses, start=ob):
+                    ok, why = False, "after Parser.parsing_list is set, %s can return normally without resetting it" % lf.name
+        rep.ob("C02.R10", "list-flag::reset-on-every-return::" + lf.name, ok, why, lf.loc(), how="a write of false on every non-error path to the return")
     # ---- R5
     lw = F.fn("frontend::parser::is_literal_word")
     pl = F.fn(PARSER + "parse_literal_expression")
